@@ -117,6 +117,7 @@ func (ld *Loaded) verifyFunc(fn *ssa.Function) (res *FuncResult) {
 	final, results := ex.execFunc(fr, st)
 	if !final.infeasible() {
 		env := &Env{ex: ex, fr: fr, st: final, old: ex.entry, vars: map[string]Val{}, results: results, resultNames: resultNames(fn), pkg: pkgOf(fn)}
+		ex.applyGhost(env, fc, final)
 		for _, e := range fc.Ensures {
 			g := ex.evalBool(env, e.E)
 			ex.oblige(fr, final, "post", "post:"+e.Label, fn.Pos(), e.Src, g)
@@ -129,6 +130,14 @@ func (ld *Loaded) verifyFunc(fn *ssa.Function) (res *FuncResult) {
 			c := &Obligation{Name: fnKey(fn) + "#cover:return", Kind: "cover", Fn: fnKey(fn), Cover: true,
 				Hyps: append(append([]*Term{}, ex.assumptions...), final.pc...), ex: ex, st: final}
 			ex.obs = append(ex.obs, c)
+		}
+	}
+	// obligation names are unique: repeated sites get an ordinal suffix
+	cnt := map[string]int{}
+	for _, o := range ex.obs {
+		cnt[o.Name]++
+		if n := cnt[o.Name]; n > 1 {
+			o.Name = fmt.Sprintf("%s~%d", o.Name, n)
 		}
 	}
 	res.Obs = ex.obs
@@ -280,4 +289,34 @@ func (ld *Loaded) verifyLemma(l *Lemma) *FuncResult {
 
 func (o *Obligation) String() string {
 	return fmt.Sprintf("%s [%s]", o.Name, o.Res.Status)
+}
+
+// applyGhost performs the contract's ghost assignments (simultaneously) on st.
+func (ex *Exec) applyGhost(env *Env, fc *FuncContract, st *State) {
+	type upd struct {
+		loc *Loc
+		v   Val
+	}
+	var us []upd
+	for _, g := range fc.Ghost {
+		if g.Target.Kind != ModField {
+			sfail("ghost assignment target must be a field: %s", g.Src)
+		}
+		oldEnv := *env
+		oldEnv.st = env.old
+		base := ex.eval(&oldEnv, g.Target.Base)
+		loc := ex.fieldLoc(base, g.Target.Field)
+		v := ex.eval(env, g.Value)
+		if v.Const != nil {
+			v = coerce(v, loc.T)
+		}
+		if len(v.L) != len(layoutOf(loc.T).Leaves) {
+			sfail("ghost assignment type mismatch in %s", g.Src)
+		}
+		v.T = loc.T
+		us = append(us, upd{loc, v})
+	}
+	for _, u := range us {
+		st.store(u.loc, u.v)
+	}
 }
